@@ -179,5 +179,7 @@ OrderOK == [][ \/ (phase = "idle" /\ phase' \in {"idle", "predicted"})
 ParamsAll  == { <<<<1, 4>>, <<1, 2>>>>, <<<<3, 10>>, <<11, 20>>>>, <<<<1, 2>>, <<1, 2>>>> }
 ParamsTrap == { <<<<1, 4>>, <<1, 2>>>> }
 DtsAll     == { <<1, 2>>, <<1, 1>>, <<2, 1>> }
+ParamsBig  == ParamsAll \cup { <<<<1, 3>>, <<1, 2>>>>, <<<<9, 25>>, <<7, 10>>>> }
+DtsBig     == DtsAll \cup { <<1, 4>>, <<3, 2>>, <<3, 1>> }
 InitsAll   == { <<x, y>> : x \in {-1, 0, 1}, y \in {-1, 0, 1} }
 =============================================================================
